@@ -3,6 +3,7 @@ package sim
 import (
 	"bytes"
 	"context"
+	"errors"
 	"fmt"
 	"io"
 	"strings"
@@ -47,6 +48,7 @@ type sideRec struct {
 	Sends    []*sendRec
 	Recvs    []*recvRec
 	nextSeq  map[int]int // per sender of the PEER: next expected seq
+	seen     map[int]bool
 	recvPos  int         // number of messages received (single sender positional check)
 	FirstErr error       // first non-nil error returned by a receive
 	CloseSendErr error
@@ -660,6 +662,9 @@ func (x *e1) handlerReturn(r *rpcRec, err error) {
 func (x *e1) handleUnary(k int, ctx context.Context, in *Msg) (*Msg, error) {
 	r := x.recFor(k)
 	x.handlerStart(r, ctx)
+	if in.Seen != 1 {
+		x.viol("crosstalk", "handler received a request object that had been used for another request before", fmt.Sprintf("rpc%d seen=%d", k, in.Seen))
+	}
 	if !bytes.Equal(in.B, x.reqBytes(r.Spec)) {
 		x.viol("crosstalk", fmt.Sprintf("unary request mismatch at handler got=%s", classifyForeign(in.B, k, dirC2S)),
 			fmt.Sprintf("rpc%d got %s", k, msgDescribe(in.B)))
@@ -681,6 +686,9 @@ func (x *e1) handleStream(k int, in *Msg, st drpc.Stream) error {
 	r := x.recFor(k)
 	x.handlerStart(r, st.Context())
 	r.H.st = st
+	if in != nil && in.Seen != 1 {
+		x.viol("crosstalk", "handler received a request object that had been used for another request before", fmt.Sprintf("rpc%d seen=%d", k, in.Seen))
+	}
 	if in != nil && !bytes.Equal(in.B, x.reqBytes(r.Spec)) {
 		x.viol("crosstalk", fmt.Sprintf("stream request mismatch at handler got=%s", classifyForeign(in.B, k, dirC2S)),
 			fmt.Sprintf("rpc%d got %s", k, msgDescribe(in.B)))
@@ -800,7 +808,7 @@ func (x *e1) checkCancelledCall(sd *sideRec, verb string, start int, err error) 
 		if err == nil || !isCtxErr(err) {
 			// a message or another terminal event may legitimately win the race;
 			// only a non-context *error* that is not end-of-stream/handler error is wrong
-			if err != nil && err != io.EOF && !isHandlerText(err) && !strings.Contains(err.Error(), "closed") {
+			if err != nil && !errors.Is(err, io.EOF) && err.Error() != "EOF" && !isHandlerText(err) && !strings.Contains(err.Error(), "closed") {
 				x.viol("cancel-error", fmt.Sprintf("receive blocked at cancel returned a foreign error mode=%s class=%s", x.cancelMode(), errClass(err)), errStr(err))
 			}
 		}
@@ -811,7 +819,7 @@ func (x *e1) checkCancelledCall(sd *sideRec, verb string, start int, err error) 
 		// was closed); anything else must be the context's error
 		// (if the connection went away for another reason at the same time, that reason may win)
 		otherCause := x.phase == "q4" || x.serveDone || x.sep.IsClosed() || x.ioFired() || x.transportClosedByHarness() || x.closeStep > 0
-		if err != nil && !isCtxErr(err) && err != io.EOF && !sd.ClosedByMe && !otherCause {
+		if err != nil && !isCtxErr(err) && !errors.Is(err, io.EOF) && !sd.ClosedByMe && !otherCause {
 			x.viol("cancel-error", fmt.Sprintf("send blocked in the transport at cancel returned %s instead of the context error (default mode)", errClass(err)), errStr(err))
 		}
 	}
